@@ -219,6 +219,9 @@ type shardProc struct {
 	bodyBad    []string // successful scrapes whose body was not the target's
 	paused     int32    // the front answers 503: the coordinator cannot reach this shard
 	failReload int32    // the fake Prometheus answers 500 to that many further reload requests
+	running    string   // the generated file as it was at the last reload that succeeded: what this Prometheus runs
+	hasRunning bool
+	runMu      sync.Mutex
 }
 
 type promTarget struct {
@@ -311,8 +314,10 @@ func (s *shardProc) dropRule() bool {
 
 // promTargets: what a Prometheus started on the generated file scrapes (expanded by the vendored library).
 func (s *shardProc) promTargets() []promTarget {
-	data, err := ioutil.ReadFile(s.out)
-	if err != nil {
+	s.runMu.Lock()
+	data, ok := []byte(s.running), s.hasRunning
+	s.runMu.Unlock()
+	if !ok {
 		return nil
 	}
 	if string(data) == s.parsedOf {
@@ -643,9 +648,14 @@ func runSys(c *sysCase) (vs []vkit.Violation, classes []string, infra error) {
 					http.Error(w, "reload failed (scripted)", 500)
 					return
 				}
+				// a reload that succeeds makes Prometheus run what the file says now; until the next one it runs that
+				data, _ := ioutil.ReadFile(sp.out)
 				sp.mu.Lock()
 				sp.reloads++
 				sp.mu.Unlock()
+				sp.runMu.Lock()
+				sp.running, sp.hasRunning = string(data), true
+				sp.runMu.Unlock()
 				w.WriteHeader(200)
 			case r.URL.Path == "/api/v1/status/tsdb":
 				fmt.Fprintf(w, `{"status":"success","data":{"headStats":{"numSeries":%d}}}`, sp.head())
@@ -1120,7 +1130,7 @@ func runSys(c *sysCase) (vs []vkit.Violation, classes []string, infra error) {
 		s.mu.Lock()
 		rl := s.reloads
 		s.mu.Unlock()
-		if rl == 0 && len(s.promTargets()) > 0 {
+		if data, err := ioutil.ReadFile(s.out); rl == 0 && err == nil && strings.Contains(string(data), "_hash") {
 			add("C11/sys/prometheus-never-reloaded", "shard %d generated a configuration with targets but never asked its Prometheus to reload", i)
 		}
 		var cfg struct {
@@ -1148,6 +1158,23 @@ func runSys(c *sysCase) (vs []vkit.Violation, classes []string, infra error) {
 	}
 	if c.FullShard != 0 && c.MaxHead != 0 {
 		classes = append(classes, "sys/shard-with-full-head")
+	}
+	// "a shard is reported in sync exactly when it runs the coordinator's configuration": every shard reports the
+	// coordinator's hash now; the configuration its Prometheus really runs (the file as it was at the last reload
+	// that succeeded) must have the metric relabeling of the current configuration
+	if len(hashes) == 1 && !hashes[""] {
+		for i, s := range shards {
+			if s.drifted {
+				continue
+			}
+			s.runMu.Lock()
+			has := s.hasRunning
+			s.runMu.Unlock()
+			if has && s.dropRule() != rule {
+				add("C16/sys/in-sync-shard-runs-an-older-configuration", "shard %d reports the coordinator's configuration hash, but the configuration its Prometheus runs (generated file at the last reload that succeeded) has metric relabeling %v where the coordinator's has %v: a reload of its Prometheus failed, the sidecar reports the new hash all the same and is never sent the configuration again", i, s.dropRule(), rule)
+				break
+			}
+		}
 	}
 	if len(hashes) != 1 || hashes[""] {
 		add("C16/sys/config-hash", "the shards report configuration hashes %v after convergence (one file, pushed by the coordinator)", hashes)
